@@ -8,7 +8,7 @@ EXTENDS CelNames, TLC
 CONSTANT MODE
 VARIABLES bs, pkg, ref, prog, exp
 vars == <<bs, pkg, ref, prog, exp>>
-nA == <<97>>  nB == <<98>>  nC == <<99>>  nD == <<100>>  nP == <<112>>  nQ == <<113>>
+nA == <<97>>  nB == <<98>>  nC == <<99>>  nD == <<100>>  nP == <<112>>  nQ == <<113>>  nR == <<114>>
 I(n) == IntV(FromInt(n))
 M1(k, v) == Map(<< <<Str(k), v>> >>)
 \* kinds of binding for each name of the path, with tag t (tags make the chosen binding identifiable)
@@ -18,7 +18,8 @@ KindsABC(t) == { <<>>, << <<<<nA, nB, nC>>, I(t)>> >> }
 Root == { x \o y \o z : x \in KindsA(10), y \in KindsAB(20), z \in KindsABC(30) }
 Under(lvl, t) == { <<>>, << <<lvl \o <<nA>>, I(t)>> >>, << <<lvl \o <<nA>>, M1(nB, M1(nC, I(t + 1)))>> >>, << <<lvl \o <<nA, nB>>, I(t + 2)>> >>, << <<lvl \o <<nA, nB, nC>>, I(t + 3)>> >> }
 Refs == { <<nA>>, <<nA, nB>>, <<nA, nB, nC>>, <<nA, nB, nC, nD>> }
-Pkgs == { <<>>, <<nP>>, <<nP, nQ>> }
+Pkgs == { <<>>, <<nP>>, <<nP, nQ>>, <<nP, nQ, nR>> }
+Under3 == { <<>>, << <<<<nP, nQ, nR, nA>>, I(60)>> >> }
 \* the statement is silent about a reference that stops at a bare namespace prefix (no bound name covers it completely and
 \* nothing is selected): such references are not generated.
 \* ... i.e. some bound name strictly extends the (prefixed) reference at one of the levels
@@ -49,11 +50,13 @@ IdentProgs(n) == << Var(n), Bin("+", Var(n), Lit(I(1))), Macro("map", L(<<1, 2>>
 IdentEnv(n, bound) == CASE bound = "int" -> << <<n, I(7)>> >> [] bound = "null" -> << <<n, Null>> >> [] OTHER -> <<>>
 BoundKind(b) == IF b = <<>> THEN "no" ELSE IF b[1][2] = Null THEN "null" ELSE "int"
 OuterEnv == << <<"x", I(100)>>, <<"y", I(200)>> >>
+OuterEnv0 == << <<"x", I(0)>>, <<"y", I(0)>> >>          \* outer variables bound to a zero are bound all the same
 Init == bs = <<>> /\ pkg = <<>> /\ ref = <<>> /\ prog = Lit(Null) /\ exp = Null
-Next == \/ (MODE = "names" /\ ref = <<>> /\ \E r \in Root, u1 \in Under(<<nP>>, 40), u2 \in Under(<<nP, nQ>>, 50), pk \in Pkgs, rf \in Refs :
-               /\ bs' = r \o u1 \o u2 /\ pkg' = pk /\ ref' = rf /\ UNCHANGED prog
+Next == \/ (MODE = "names" /\ ref = <<>> /\ \E r \in Root, u1 \in Under(<<nP>>, 40), u2 \in Under(<<nP, nQ>>, 50), u3 \in Under3, pk \in Pkgs, rf \in Refs :
+               /\ (u3 # <<>> => pk = <<nP, nQ, nR>>)
+               /\ bs' = r \o u1 \o u2 \o u3 /\ pkg' = pk /\ ref' = rf /\ UNCHANGED prog
                /\ exp' = Expected(bs', pk, rf))
-        \/ (MODE = "macros" /\ prog = Lit(Null) /\ \E p \in MacroProgs : prog' = p /\ exp' = Eval(p, OuterEnv) /\ UNCHANGED <<bs, pkg, ref>>)
+        \/ (MODE = "macros" /\ prog = Lit(Null) /\ \E p \in MacroProgs, env \in {OuterEnv, OuterEnv0} : prog' = p /\ bs' = env /\ exp' = Eval(p, env) /\ UNCHANGED <<pkg, ref>>)
         \/ (MODE = "idents" /\ prog = Lit(Null) /\ \E n \in HostileIdents \cup {"zz"}, bound \in {"no", "int", "null"}, j \in 1..Len(IdentProgs("zz")) :
                /\ prog' = IdentProgs(n)[j] /\ bs' = IdentEnv(n, bound) /\ pkg' = j /\ UNCHANGED ref
                /\ exp' = Eval(prog', bs'))
@@ -64,7 +67,7 @@ WholeNameWins == (ref # <<>> /\ IsBound(bs, pkg \o ref)) => exp = ValueOf(bs, pk
 PackageFirst == (ref # <<>> /\ pkg # <<>> /\ IsBound(bs, pkg \o <<nA>>) /\ ref = <<nA>>) => exp = ValueOf(bs, pkg \o <<nA>>)
 RootFallback == (ref # <<>> /\ exp # Indef /\ ~(\E k \in 1..Len(ref) : \E j \in 1..Len(pkg) : IsBound(bs, SubSeq(pkg, 1, j) \o SubSeq(ref, 1, k)))) => exp = Resolve(bs, <<>>, ref)
 \* macro variables never leak: the outer x (100) / y (200) are what the expression sees after the macro
-NoLeak == (MODE = "macros" /\ prog.k = "bin" /\ prog.op = "+" /\ prog.r.k = "list" /\ exp.t = "list") => exp.v[Len(exp.v)] \in {I(100), I(200)}
+NoLeak == (MODE = "macros" /\ prog.k = "bin" /\ prog.op = "+" /\ prog.r.k = "list" /\ exp.t = "list") => exp.v[Len(exp.v)] \in {bs[1][2], bs[2][2]}
 \* the spelling of an identifier is irrelevant: the outcome is the one the same program has with the identifier spelled "x"
 SpellingIrrelevant == (MODE = "idents" /\ prog # Lit(Null)) => exp = Eval(IdentProgs("zz")[pkg], IdentEnv("zz", BoundKind(bs)))
 =============================================================================
